@@ -67,7 +67,7 @@ const HOSTILE_SIZES: [(u16, u16); 14] = [
 /// Well-formed syntax with hostile meaning. Returns bytes and a label.
 pub fn semantic_corruption(g: &mut Gen, cfg: &PicCfg, aim: &Aim) -> (Vec<u8>, &'static str) {
     let mut pic = valid_picture(g, cfg, aim);
-    let k = g.below(16);
+    let k = g.below(19);
     match k {
         0 => {
             // more macroblocks than the picture holds
@@ -90,8 +90,19 @@ pub fn semantic_corruption(g: &mut Gen, cfg: &PicCfg, aim: &Aim) -> (Vec<u8>, &'
             (encode_pic(&pic), "declared size rewritten (zero / tiny / huge / other)")
         }
         2 => {
-            // predicted picture of another size than the reference
-            let size = any_size(g, aim.mode, cfg);
+            // predicted picture of another size than the reference; sometimes one with exactly the
+            // same number of samples but another shape (15x4 after 5x12)
+            let mut size = any_size(g, aim.mode, cfg);
+            if aim.mode == Mode::Sorenson && g.chance(1, 2) {
+                if let Some((w0, h0)) = aim.like.as_ref().and_then(|l| l.dims()) {
+                    let area = w0 * h0;
+                    let divs: Vec<usize> = (1..=area.min(65535)).filter(|d| area % d == 0 && area / d <= 65535 && *d != w0).collect();
+                    if !divs.is_empty() {
+                        let d = *g.pick(&divs);
+                        size = Size::Custom16(d as u16, (area / d) as u16);
+                    }
+                }
+            }
             let like = match aim.mode {
                 Mode::Sorenson => Header::sorenson(aim.version, PicType::P, size, 5),
                 Mode::Standard => Header::standard(PicType::P, size, 5),
@@ -240,6 +251,82 @@ pub fn semantic_corruption(g: &mut Gen, cfg: &PicCfg, aim: &Aim) -> (Vec<u8>, &'
             }
             (w.to_bytes(), "picture type rewritten after the macroblocks were produced")
         }
+        17 => {
+            // a very long uninterrupted run of MCBPC stuffing codewords (constant-bit-rate padding):
+            // thousands to hundreds of thousands, then the picture's macroblocks
+            if !g.chance(1, 5) {
+                return (encode_pic(&pic), "valid picture (control)");
+            }
+            let n = if g.chance(1, 10) { 150_000usize } else { *g.pick(&[3_000usize, 20_000, 45_000, 70_000]) };
+            let mut w = BitWriter::new();
+            encode_header(&pic.hdr, &mut w);
+            let inter = pic.hdr.ptype != PicType::I;
+            let mut one = BitWriter::new();
+            if inter {
+                one.put_bit(false);
+            }
+            one.put_code("000000001");
+            w.bits.reserve(n * one.len());
+            for _ in 0..n {
+                w.bits.extend_from_slice(&one.bits);
+            }
+            for mb in &pic.mbs {
+                encode_mb(mb, &pic.hdr, &mut w);
+            }
+            (w.to_bytes(), "very long run of MCBPC stuffing codewords")
+        }
+        15 | 16 => {
+            // Annex D: PLUSPTYPE picture with unrestricted motion vectors, every macroblock INTER
+            // with Table D.3 differentials of extreme magnitude (they accumulate through the
+            // predictors along a macroblock row)
+            let like = aim.like.clone().unwrap_or_else(|| Header::standard(PicType::I, Size::Qcif, 5));
+            let (fmt, cp) = match like.size {
+                Size::Sqcif => (1, None),
+                Size::Qcif => (2, None),
+                Size::Cif => (3, None),
+                Size::Cif4 => (4, None),
+                Size::Cif16 => (5, None),
+                sz => (6, sz.dims()),
+            };
+            let mut p = base_plus();
+            p.opp = Opp::from_mode_bits(fmt, false, 1 << 9);
+            if let Some((cw, ch)) = cp {
+                p.cpfmt = Cpfmt { par: 2, pwi: ((cw / 4).max(1) - 1).min(511) as u16, marker: true, phi: (ch / 4).clamp(1, 288) as u16, epar: (1, 1) };
+            }
+            p.uui = if g.bool() { Uui::Unlimited } else { Uui::Limited };
+            p.ptype_code = 1;
+            let mut h = base_header(Kind::Plus(p));
+            h.tr = g.byte();
+            h.quant = g.range(1, 31) as u8;
+            let mut w = BitWriter::new();
+            h.write(false, &Inherited::default(), &mut w);
+            let n = match like.mb_dims() {
+                Some((a, b)) => (a * b).min(400),
+                None => 20,
+            };
+            let style = g.below(4);
+            for i in 0..n {
+                w.put_bit(false); // COD
+                w.put_code("1"); // MCBPC: INTER, no chroma
+                w.put_code("11"); // CBPY (inter sense): no luma
+                for _comp in 0..2 {
+                    let v: i32 = match style {
+                        0 => 4095,
+                        1 => -4095,
+                        2 => {
+                            if i % 2 == 0 {
+                                4095
+                            } else {
+                                -4094
+                            }
+                        }
+                        _ => g.range_around(-4095, 4095, 0) as i32,
+                    };
+                    put_umv(&mut w, v);
+                }
+            }
+            (w.to_bytes(), "unrestricted motion vectors of extreme magnitude (Table D.3)")
+        }
         14 => {
             // far-pointing vectors everywhere
             for mb in pic.mbs.iter_mut() {
@@ -251,6 +338,23 @@ pub fn semantic_corruption(g: &mut Gen, cfg: &PicCfg, aim: &Aim) -> (Vec<u8>, &'
         }
         _ => (encode_pic(&pic), "valid picture (control)"),
     }
+}
+
+/// Table D.3 code of an unrestricted motion vector difference (half-sample units, |v| <= 4095).
+pub fn put_umv(w: &mut BitWriter, v: i32) {
+    if v == 0 {
+        w.put_bit(true);
+        return;
+    }
+    w.put_bit(false);
+    let a = v.unsigned_abs();
+    let k = 31 - a.leading_zeros(); // number of bits below the leading one
+    for i in (0..k).rev() {
+        w.put_bit((a >> i) & 1 == 1);
+        w.put_bit(true);
+    }
+    w.put_bit(v < 0);
+    w.put_bit(false);
 }
 
 /// Bit-level corruption of a valid or semantically corrupted picture.
